@@ -398,6 +398,118 @@ impl Clone for CompC {
 }
 
 /// Kinds whose values run a tracked destructor (exactly-once drop accounting applies).
+// ---------------------------------------------------------------------------------------------
+// kinds 42..46: further shapes - byte arrays of size 5, 6, 7 (align 1; a register-sized move is
+// wider than the element), 12 bytes with align 4 (size != align), align 16 and align 32
+macro_rules! bytes_comp {
+    ($name:ident, $kind:expr, $n:expr, $pb:expr) => {
+        pub struct $name {
+            b: [u8; $n],
+        }
+        impl $name {
+            fn id(&self) -> u32 {
+                self.b[0] as u32 | (self.b[1] as u32) << 8 | (self.b[2] as u32) << 16
+            }
+            fn payload(&self) -> u64 {
+                let mut p = 0u64;
+                for i in 0..$pb {
+                    p |= (self.b[3 + i] as u64) << (8 * i);
+                }
+                p
+            }
+        }
+        impl Comp for $name {
+            const KIND: u8 = $kind;
+            const HAS_ID: bool = true;
+            const PAYLOAD_MASK: u64 = (1u64 << (8 * $pb)) - 1;
+            fn make(payload: u64) -> Self {
+                let id = rt::on_make($kind, true);
+                assert!(id < (1 << 24), "sim limit: too many values of one byte-array kind in one run");
+                let mut b = [0u8; $n];
+                b[0] = id as u8;
+                b[1] = (id >> 8) as u8;
+                b[2] = (id >> 16) as u8;
+                for i in 0..$pb {
+                    b[3 + i] = (payload >> (8 * i)) as u8;
+                }
+                $name { b }
+            }
+            fn obs(&self) -> Obs {
+                check_live($kind, self.id());
+                Obs { kind: $kind, id: self.id(), payload: self.payload() }
+            }
+            fn set(&mut self, payload: u64) {
+                for i in 0..$pb {
+                    self.b[3 + i] = (payload >> (8 * i)) as u8;
+                }
+            }
+        }
+        impl Clone for $name {
+            fn clone(&self) -> Self {
+                rt::on_clone_enter($kind, self.id());
+                let n = Self::make(self.payload());
+                rt::on_clone_done($kind, self.id(), n.id());
+                n
+            }
+        }
+        impl Drop for $name {
+            fn drop(&mut self) {
+                rt::on_drop($kind, self.id(), true);
+            }
+        }
+    };
+}
+bytes_comp!(CompS5, 42, 5, 2);
+bytes_comp!(CompS7, 43, 7, 4);
+bytes_comp!(CompS6, 47, 6, 3);
+
+macro_rules! word_comp {
+    ($(#[$attr:meta])* $name:ident, $kind:expr, $canary:expr) => {
+        $(#[$attr])*
+        pub struct $name {
+            id: u32,
+            payload: u32,
+            canary: u32,
+        }
+        impl Comp for $name {
+            const KIND: u8 = $kind;
+            const HAS_ID: bool = true;
+            const PAYLOAD_MASK: u64 = 0xFFFF_FFFF;
+            fn make(payload: u64) -> Self {
+                $name { id: rt::on_make($kind, true), payload: payload as u32, canary: $canary }
+            }
+            fn obs(&self) -> Obs {
+                if self.canary != $canary {
+                    rt::violate("C02", "canary", format!("{} canary corrupted: {:#x}", stringify!($name), self.canary));
+                    return Obs { kind: $kind, id: u32::MAX, payload: self.payload as u64 };
+                }
+                check_live($kind, self.id);
+                Obs { kind: $kind, id: self.id, payload: self.payload as u64 }
+            }
+            fn set(&mut self, payload: u64) {
+                self.payload = payload as u32;
+            }
+        }
+        impl Clone for $name {
+            fn clone(&self) -> Self {
+                rt::on_clone_enter($kind, self.id);
+                let n = Self::make(self.payload as u64);
+                rt::on_clone_done($kind, self.id, n.id);
+                n
+            }
+        }
+        impl Drop for $name {
+            fn drop(&mut self) {
+                let id = if self.canary == $canary { self.id } else { u32::MAX };
+                rt::on_drop($kind, id, true);
+            }
+        }
+    };
+}
+word_comp!(CompP12, 44, 0x5A17_C0DE);
+word_comp!(#[repr(align(16))] CompA16, 45, 0x16A1_16A1);
+word_comp!(#[repr(align(32))] CompA32, 46, 0x32A1_32A1);
+
 pub fn kind_has_drop(kind: u8) -> bool {
     !matches!(kind, 6 | 41)
 }
@@ -411,6 +523,8 @@ pub fn payload_mask(kind: u8) -> u64 {
         4 => CompL::PAYLOAD_MASK,
         5 | 6 => 0,
         7 => 0xFF,
+        42 => 0xFFFF,
+        47 => 0xFF_FFFF,
         _ => 0xFFFF_FFFF,
     }
 }
